@@ -222,7 +222,13 @@ CLAIMED = {
              "invariant (exact string accounting, catalog = tables, sorted valid rows, medium = memory unless flagged) preserved "
              "by every operation, plus codec round trips (rows, pool incl. long-string escape, property set).  Admissible excludes "
              "values no Rust caller can build, non-UTF-8 database code pages (representability) and DML aimed at a catalog table "
-             "(known finding catalog_dml, with a proved witness).  Correspondence: random histories with a close/reopen after every "
+             "(known finding catalog_dml, with a proved witness).  Single-byte database code pages (props/C01_codepages.v, "
+             "props/C01_reopen_pages.v): the pool and property-set codecs round-trip under ANY of the 19 single-byte pages for "
+             "representable text; for every reachable package whose pool strings are representable in page c, "
+             "set_database_codepage(c) + save + reopen shows what was observable, with code page c (C01_reachable_roundtrip_pages); "
+             "every history of operations commutes with the switch (C01_run_commutes: no operation but flush/open reads the code "
+             "page), hence create; set_database_codepage(c); ANY admissible history; save; reopen round-trips "
+             "(C01_history_after_switch).  The five multi-byte pages are covered on the implementation only.  Correspondence: random histories with a close/reopen after every "
              "operation in each of the three close modes (flush + bytes at the moment flush returned, into_inner, drop), raw "
              "streams compared, second save byte-identical, 26 code pages with strings from their repertoire.",
         note="Trusted: Coq kernel, translator, extraction, harness; cfb modelled as a name->bytes map (sector level outside); "
